@@ -7,7 +7,7 @@ Lemma source_shapes_ok : shape_ok thread_shape = true /\ shape_ok mux_shape = tr
 Proof. split; vm_compute; reflexivity. Qed.
 Lemma source_worker_handback_ordered : worker_job_cleared_before_handback = true.
 Proof. vm_compute; reflexivity. Qed.
-Lemma cfg_ok thread pool : shape_ok (cf_shape (cfg thread pool)) = true.
+Lemma cfg_ok thread pool hk : shape_ok (cf_shape (cfg thread pool hk)) = true.
 Proof. destruct thread; simpl; apply source_shapes_ok. Qed.
 
 (* a refused handshake closes the socket and never runs the hook (by design, both servers) *)
@@ -16,8 +16,8 @@ Lemma source_reject_no_hook :
   0 < nacts ASock (sh_reject thread_shape) /\ 0 < nacts ASock (sh_reject mux_shape).
 Proof. vm_compute. repeat split; repeat constructor. Qed.
 
-Lemma cleanup_exactly_once_src thread pool evs c :
-  let cf := cfg thread pool in
+Lemma cleanup_exactly_once_src thread pool hk evs c :
+  let cf := cfg thread pool hk in
   let st := fst (run cf evs) in let tr := snd (run cf evs) in
   c_acc (conns st c) = true -> c_ended (conns st c) = true ->
   exists evs1 ev evs2, evs = evs1 ++ ev :: evs2 /\
@@ -28,10 +28,10 @@ Lemma cleanup_exactly_once_src thread pool evs c :
     (forall r, count (ResClose c r) tr = if mem r (c_tracked s) then 1 else 0) /\
     c_inst (conns st c) = false /\ c_slot (conns st c) = false /\ c_open (conns st c) = false /\
     c_tracked (conns st c) = [].
-Proof. exact (cleanup_exactly_once (cfg thread pool) (cfg_ok thread pool) evs c). Qed.
+Proof. exact (cleanup_exactly_once (cfg thread pool hk) (cfg_ok thread pool hk) evs c). Qed.
 
-Lemma every_ending_ends_src thread pool evs ev c :
-  let cf := cfg thread pool in
+Lemma every_ending_ends_src thread pool hk evs ev c :
+  let cf := cfg thread pool hk in
   active (conns (fst (run cf evs)) c) = true -> is_ending ev c = true ->
   c_ended (conns (fst (step cf (fst (run cf evs)) ev)) c) = true.
 Proof.
